@@ -448,6 +448,8 @@ def run(ctx):
     sub = texts[:ctx.n(600, 8000)]
     dis, _ = common.corr_stage('aligned', sub, ia.aligned_dump, 'aligned')
     res['disagreements'] = dis[:50]
+    kdone = common.kernel_route(ctx, 'fmt_al', sub, res)       # second route: the kernel evaluates the model
+    res.setdefault('distribution', {})['kernel_evaluated_fmt_al (vm_compute inside coqc, compared with the implementation)'] = kdone
     res['traces_validated_against_impl'] = len(sub) - len(dis)
     res['rule'] += '; model `aligned` == impl final string'
     return res
